@@ -10,13 +10,19 @@
 (***************************************************************************)
 EXTENDS Naturals, TLC, Json
 CONSTANTS MaxWriters, MaxK, Delays
-Events == {"none", "localClose", "localCloseReason", "peerClose", "peerEof", "writeFail", "readFail"}
+\* peerBad (C08): a frame a SHIP peer must never send - k = 1 text frame, 2 one-byte binary, 3 empty binary (all refused: the
+\* connection is closed and the loss reported), 4 a 1 MB binary frame, 5 a ping with payload (both tolerated)
+Events == {"none", "localClose", "localCloseReason", "peerClose", "peerEof", "peerBad", "writeFail", "readFail"}
 Places == {"start", "idle", "mid", "blockedFull"}
 Rows == { [writers |-> w, msgs |-> m, inbound |-> i, event |-> e, place |-> p, k |-> k, delay |-> d] :
             w \in 1..MaxWriters, m \in 1..2, i \in {0, 2}, e \in Events, p \in Places, k \in 0..MaxK, d \in Delays }
 \* k: for writeFail / readFail the position of the failing transport operation, for peerClose the index of the close code
 \* (1000, 1001, 1002, 1008, 1011, 3000, 4001, 4452, 4999, ...)
-Valid(r) == /\ (r.event \in {"writeFail", "readFail", "peerClose"}) <=> (r.k > 0)
+\* localCloseReason, k = 1: the transport write of the close frame returns only after the peer has reacted to it
+Valid(r) == /\ (r.event \in {"writeFail", "readFail", "peerClose", "peerBad"}) => (r.k > 0)
+            /\ (r.event \in {"none", "localClose", "peerEof"}) => (r.k = 0)
+            /\ r.event = "localCloseReason" => r.k <= 1
+            /\ r.event = "peerBad" => (r.k <= 5 /\ r.inbound = 0 /\ r.msgs = 2 /\ r.place \in {"idle", "mid"})
             /\ (r.place = "mid") <=> (r.delay > 0)
             /\ r.place = "blockedFull" => (r.writers >= 2 /\ r.msgs = 2 /\ r.event \notin {"readFail", "none"} /\ r.k <= 2)
             /\ r.event = "peerClose" => (r.inbound = 0 /\ r.msgs = 2 /\ r.place \in {"idle", "mid", "blockedFull"})
